@@ -783,6 +783,67 @@ static const char *cfg_text (int n)
     }
 }
 
+/* perform the operation once; the message operated on is m (may be NULL), results in *r / *obj */
+static dbus_bool_t lib_do (char **tok, int ntok, DBusMessage *m, const char *setval, DBusMessage **r, void **obj, DBusError *err)
+{
+  const char *op = tok[1]; dbus_bool_t ok = FALSE; int l;
+  *r = NULL; *obj = NULL;
+  if (strcmp (op, "new") == 0)
+    {
+      int a; char *d = strcmp (tok[3], "-") ? (char *) unhex (tok[3], &a) : NULL, *pa = (char *) unhex (tok[4], &a), *i = (char *) unhex (tok[5], &a), *me = (char *) unhex (tok[6], &a);
+      if (strcmp (tok[2], "call") == 0) *r = dbus_message_new_method_call (d, pa, i, me);
+      else if (strcmp (tok[2], "signal") == 0) *r = dbus_message_new_signal (pa, i, me);
+      else *r = strcmp (tok[2], "ret") == 0 ? dbus_message_new_method_return (m) : dbus_message_new_error (m, i, me);
+      ok = *r != NULL;
+      free (d); free (pa); free (i); free (me);
+    }
+  else if (strcmp (op, "append") == 0) ok = append_args (m, tok + 2, ntok - 2);
+  else if (strcmp (op, "copy") == 0) { *r = dbus_message_copy (m); ok = *r != NULL; }
+  else if (strcmp (op, "set") == 0)
+    {
+      const char *f = tok[2];
+      if (strcmp (f, "destination") == 0) ok = dbus_message_set_destination (m, setval);
+      else if (strcmp (f, "sender") == 0) ok = dbus_message_set_sender (m, setval);
+      else if (strcmp (f, "member") == 0) ok = dbus_message_set_member (m, setval);
+      else if (strcmp (f, "interface") == 0) ok = dbus_message_set_interface (m, setval);
+      else if (strcmp (f, "path") == 0) ok = dbus_message_set_path (m, setval);
+      else if (strcmp (f, "error_name") == 0) ok = dbus_message_set_error_name (m, setval);
+      else if (strcmp (f, "serial") == 0) ok = dbus_message_set_reply_serial (m, (dbus_uint32_t) strtoul (tok[3], NULL, 10));
+      else die ("bad field");
+    }
+  else if (strcmp (op, "rule") == 0)
+    {
+      char *t = (char *) unhex (tok[2], &l); DBusString str;
+      _dbus_string_init_const (&str, t);
+      *obj = bus_match_rule_parse (NULL, &str, err);
+      ok = *obj != NULL;
+      free (t);
+    }
+  else if (strcmp (op, "config") == 0)
+    {
+      DBusString str; _dbus_string_init_const (&str, cfg_path);
+      *obj = bus_config_load (&str, TRUE, NULL, err);
+      ok = *obj != NULL;
+    }
+  else die ("bad lib op");
+  return ok;
+}
+
+/* what an operation produced, as text */
+static void lib_result (const char *op, dbus_bool_t ok, DBusMessage *m, DBusMessage *r, void *obj, DBusError *err, Buf *o)
+{
+  int is_msg_op = strcmp (op, "append") == 0 || strcmp (op, "set") == 0 || strcmp (op, "copy") == 0;
+  if (ok)
+    {
+      bput (o, "ok:");
+      if (r) { char *h; if (dbus_message_get_serial (r) == 0) dbus_message_set_serial (r, 9); h = msg_hex (r); bput (o, "%s", h); free (h); }
+      else if (is_msg_op) { char *h = msg_hex (m); bput (o, "%s", h); free (h); }
+      else if (obj) bput (o, "parsed");
+    }
+  else if (dbus_error_is_set (err) && !dbus_error_has_name (err, DBUS_ERROR_NO_MEMORY)) bput (o, "err:%s", err->name);
+  else bput (o, "oom");
+}
+
 /* one attempt with the k-th allocation failing; verdict into o; returns whether a failure was injected */
 static int lib_attempt (char **tok, int ntok, int k, Buf *o)
 {
@@ -806,61 +867,20 @@ static int lib_attempt (char **tok, int ntok, int k, Buf *o)
     { FILE *f = fopen (cfg_path, "w"); if (!f) die ("cfg"); fputs (cfg_text (atoi (tok[2])), f); fclose (f); }
   alloc_seen = 0;
   _dbus_set_fail_alloc_counter (k);
-  if (strcmp (op, "new") == 0)
-    {
-      int a; char *d = strcmp (tok[3], "-") ? (char *) unhex (tok[3], &a) : NULL, *pa = (char *) unhex (tok[4], &a), *i = (char *) unhex (tok[5], &a), *me = (char *) unhex (tok[6], &a);
-      if (strcmp (tok[2], "call") == 0) r = dbus_message_new_method_call (d, pa, i, me);
-      else if (strcmp (tok[2], "signal") == 0) r = dbus_message_new_signal (pa, i, me);
-      else r = strcmp (tok[2], "ret") == 0 ? dbus_message_new_method_return (m) : dbus_message_new_error (m, i, me);
-      ok = r != NULL;
-      free (d); free (pa); free (i); free (me);
-    }
-  else if (strcmp (op, "append") == 0) ok = append_args (m, tok + 2, ntok - 2);
-  else if (strcmp (op, "copy") == 0) { r = dbus_message_copy (m); ok = r != NULL; }
-  else if (strcmp (op, "set") == 0)
-    {
-      const char *f = tok[2];
-      if (strcmp (f, "destination") == 0) ok = dbus_message_set_destination (m, setval);
-      else if (strcmp (f, "sender") == 0) ok = dbus_message_set_sender (m, setval);
-      else if (strcmp (f, "member") == 0) ok = dbus_message_set_member (m, setval);
-      else if (strcmp (f, "interface") == 0) ok = dbus_message_set_interface (m, setval);
-      else if (strcmp (f, "path") == 0) ok = dbus_message_set_path (m, setval);
-      else if (strcmp (f, "error_name") == 0) ok = dbus_message_set_error_name (m, setval);
-      else if (strcmp (f, "serial") == 0) ok = dbus_message_set_reply_serial (m, (dbus_uint32_t) strtoul (tok[3], NULL, 10));
-      else die ("bad field");
-    }
-  else if (strcmp (op, "rule") == 0)
-    {
-      char *t = (char *) unhex (tok[2], &l); DBusString str;
-      _dbus_string_init_const (&str, t);
-      obj = bus_match_rule_parse (NULL, &str, &err);
-      ok = obj != NULL;
-      free (t);
-    }
-  else if (strcmp (op, "config") == 0)
-    {
-      DBusString str; _dbus_string_init_const (&str, cfg_path);
-      obj = bus_config_load (&str, TRUE, NULL, &err);
-      ok = obj != NULL;
-    }
-  else die ("bad lib op");
+  ok = lib_do (tok, ntok, m, setval, &r, &obj, &err);
   failed = _dbus_get_fail_alloc_counter () > k;
   _dbus_set_fail_alloc_counter (_DBUS_INT_MAX);
   /* verdict */
   if (is_msg_op) after = msg_hex (m);
-  if (ok)
+  if (ok || (dbus_error_is_set (&err) && !dbus_error_has_name (&err, DBUS_ERROR_NO_MEMORY)))
     {
-      bput (o, "ok:");
-      if (r) { char *h; if (dbus_message_get_serial (r) == 0) dbus_message_set_serial (r, 9); h = msg_hex (r); bput (o, "%s", h); free (h); }
-      else if (is_msg_op) bput (o, "%s", after);
-      else if (obj) bput (o, "parsed");
+      lib_result (op, ok, m, r, obj, &err, o);
       if (strcmp (op, "copy") == 0 && strcmp (before, after) != 0) bput (o, "|BAD:source-changed");
     }
   else
     {
-      int oom = !dbus_error_is_set (&err) || dbus_error_has_name (&err, DBUS_ERROR_NO_MEMORY);
-      if (!oom) bput (o, "err:%s", err.name);
-      else if (is_msg_op && strcmp (before, after) != 0)
+      DBusMessage *r2 = NULL; void *obj2 = NULL; DBusError err2 = DBUS_ERROR_INIT; dbus_bool_t ok2;
+      if (is_msg_op && strcmp (before, after) != 0)
         {
           /* would a peer still accept the bytes? */
           int n; unsigned char *raw = unhex (after, &n); DBusError e2 = DBUS_ERROR_INIT;
@@ -870,7 +890,15 @@ static int lib_attempt (char **tok, int ntok, int k, Buf *o)
           dbus_error_free (&e2); free (raw);
         }
       else bput (o, "oom-unchanged");
-      if (!failed && oom) bput (o, "|BAD:oom-without-injection");
+      if (!failed) bput (o, "|BAD:oom-without-injection");
+      /* "succeeds when retried with memory available" */
+      ok2 = lib_do (tok, ntok, m, setval, &r2, &obj2, &err2);
+      bput (o, ";retry=");
+      lib_result (op, ok2, m, r2, obj2, &err2, o);
+      if (obj2 && strcmp (op, "rule") == 0) bus_match_rule_unref (obj2);
+      if (obj2 && strcmp (op, "config") == 0) bus_config_parser_unref (obj2);
+      if (r2) dbus_message_unref (r2);
+      dbus_error_free (&err2);
     }
   if (obj && strcmp (op, "rule") == 0) bus_match_rule_unref (obj);
   if (obj && strcmp (op, "config") == 0) bus_config_parser_unref (obj);
